@@ -179,11 +179,20 @@ func (p *FloatingIPPlugin) unbind(pod *corev1.Pod) error {
 		return err
 	}
 	key := keyObj.KeyInDB
-	if p.cloudProvider != nil {
-		ipInfos, err := p.ipam.ByKeyAndIPRanges(key, nil)
-		if err != nil {
-			return fmt.Errorf("query floating ip by key %s: %v", key, err)
+	ipInfos, err := p.ipam.ByKeyAndIPRanges(key, nil)
+	if err != nil {
+		return fmt.Errorf("query floating ip by key %s: %v", key, err)
+	}
+	for _, ipInfo := range ipInfos {
+		// a late delete/finish event of an earlier incarnation must not touch ips which have been bound to a newly
+		// created pod with the same name
+		if ipInfo.PodUid != "" && string(pod.GetUID()) != "" && ipInfo.PodUid != string(pod.GetUID()) {
+			glog.Infof("ignore unbind event of pod %s uid %s, its ip %s is now bound to pod uid %s", key,
+				string(pod.GetUID()), ipInfo.IPInfo.IP.IP.String(), ipInfo.PodUid)
+			return nil
 		}
+	}
+	if p.cloudProvider != nil {
 		for _, ipInfo := range ipInfos {
 			ipStr := ipInfo.IPInfo.IP.IP.String()
 			glog.Infof("UnAssignIP nodeName %s, ip %s, key %s", ipInfo.NodeName, ipStr, key)
